@@ -207,6 +207,19 @@ def worker(case_path, out_path):
             record(name, "alone", alone(fn))
             pr = fn(tp)
             record(name, "permuted", [pr[inv[f]] for f in range(nf)])
+        # the same through the cached-traces path: the trajectory is centred once, frames are then taken out of it (alone,
+        # permuted) and compared with precentered=True
+        tc = md.Trajectory(t.xyz.copy(), t.topology)
+        tc.center_coordinates()
+        refc = tc[0]
+
+        def rmsd_pre(x):
+            return md.rmsd(x, refc, 0, precentered=True)
+        wholec = rmsd_pre(tc)
+        record("rmsd-precentered", "whole", [wholec[f] for f in range(nf)])
+        record("rmsd-precentered", "alone", [rmsd_pre(tc[f])[0] if f in alone_frames else None for f in range(nf)])
+        prc = rmsd_pre(tc[perm])
+        record("rmsd-precentered", "permuted", [prc[inv[f]] for f in range(nf)])
         for par in (True, False):
             r = md.rmsd(md.Trajectory(t.xyz.copy(), t.topology), md.Trajectory(ref.xyz.copy(), ref.topology), 0, parallel=par)
             record("rmsd-parallel=%s" % par, "whole", [r[f] for f in range(nf)])
